@@ -154,6 +154,12 @@ func (v *DataModelView) DrawRelation(
 					Count:        1,
 				}
 			}
+		} else if attrType.GetSet() != nil {
+			_, _, label, _ := getNames(attrType.GetSet())
+			s = fmt.Sprintf("+ %s : **Set <%s>**\n", attrName, label)
+		} else if attrType.GetSequence() != nil {
+			_, _, label, _ := getNames(attrType.GetSequence())
+			s = fmt.Sprintf("+ %s : **Sequence <%s>**\n", attrName, label)
 		} else {
 			s = fmt.Sprintf("+ %s : %s\n", attrName, strings.ToLower(attrType.GetPrimitive().String()))
 		}
